@@ -245,9 +245,9 @@ U('md_ctor', fam_md, 'RangeIterator_ctor', ['C13', 'C17', 'C16'], inline=['MD_bo
   lemmas=['lemma_data_sorted', 'lemma_rank', 'lemma_box_range', 'pgmv_lower_bound_T'], insts=MD_Q, thorough_insts=MD_ALL, spec=('md.spec',),
   assumptions=[MD_NOTE, SEARCH_NOTE], timeout=1200)
 
-U('dyn_insert', fam_dyn, 'Dyn_insert', ['CXX_not_registered_yet'], inline=['Dyn_level', 'Dyn_max_size', 'Dyn_ceil_log2'], stubs=['Dyn_lower_bound_bl'], assumed=['Dyn_pairwise_merge'],
-  decls=['dyn_ghost', 'dyn_merge_ghost', 'dyn_insert_ghost'], lemmas=['lemma_level_size', 'vec_Item_insert'], insts=DYN_Q, spec=('dyn.spec',), timeout=1500, partition=16, mem_gb=10, defines=['NLEV=4'],
-  assumptions=[DYN_NOTE, 'std::vector::insert / emplace_back of the level vectors replaced by assumed contracts [A]', 'at most 32 levels above the buffer; (used_levels+1)*log2(base) <= 50 (sizes below 2^50)'])
+U('dyn_insert', fam_dyn, 'Dyn_insert', ['C15', 'C17'], thorough_only_props=['C15', 'C17'], inline=['Dyn_level', 'Dyn_max_size', 'Dyn_ceil_log2'], stubs=['Dyn_lower_bound_bl'], assumed=['Dyn_pairwise_merge'],
+  decls=['dyn_ghost', 'dyn_merge_ghost', 'dyn_insert_ghost'], lemmas=['lemma_level_size', 'vec_Item_insert'], insts=DYN_Q, spec=('dyn.spec',), timeout=3600, partition=48, mem_gb=8, defines=['NLEV=4'],
+  assumptions=[DYN_NOTE, 'std::vector::insert / emplace_back of the level vectors replaced by assumed contracts [A]', 'at most 4 used levels above the buffer (NLEV=4, enumerated fresh level arrays); (used_levels+1)*log2(base) <= 50 (sizes below 2^50); constant vector capacities', 'thorough tier only: the postcondition group alone needs about 20 minutes of SAT time'])
 
 U('mapped_serialize', fam_mapped, 'Mapped_serialize_and_map', ['C12', 'C17'], assumed=['pgmv_fstream_open', 'pgmv_fstream_seekp', 'pgmv_write_member', 'pgmv_write_container', 'pgmv_map_file'],
   decls=['mapped_ghost', 'ser_ghost'], insts=[kinst('uint64_t'), kinst('int32_t')], thorough_insts=MAPPED_ALL, spec=('mapped.spec',), mem_gb=20, timeout=900, drop_checks=['--conversion-check'],
